@@ -41,6 +41,11 @@ EMBED = [('Grid3D', 'Grid2D', 2, {}), ('Grid2D', 'Grid1D', 1, {}), ('Cylindrical
 
 def jobs(tier):
     out = [('perm', 'Grid2D', tier), ('perm', 'Grid3D', tier)]
+    # axis relabelling on concrete grids with equally many cells along every axis (one and two): size-dependent branches and
+    # index collisions on short axes must treat all axes alike
+    out += [('perm', 'Grid2D', tier, (1, 1)), ('perm', 'Grid3D', tier, (1, 1, 1))]
+    if tier != 'quick':
+        out += [('perm', 'Grid2D', tier, (2, 2)), ('perm', 'Grid3D', tier, (2, 2, 2))]
     out += [('embed', e, tier) for e in EMBED]
     out += [('mirror', c, tier) for c in ('Grid1D', 'Grid2D', 'Grid3D')]
     out += [('seam', c, tier) for c in ('Grid1D', 'Grid2D', 'Grid3D', 'PolarGrid2D', 'CylindricalGrid3D')]
@@ -64,7 +69,8 @@ def value_at(w, res, P):
 
 
 def job(args):
-    kind, what, tier = args
+    kind, what, tier = args[:3]
+    sizes = args[3] if len(args) > 3 else None
     sm = SourceModel()
     obs, samples, units = [], [], set()
 
@@ -72,7 +78,7 @@ def job(args):
         obs.append(dict(rule=rule, construct=construct, ok=bool(ok), detail=str(detail)[:1200], loc=loc, nontrivial=True))
     if kind == 'perm':
         cls = what
-        w = World(sm, cls)
+        w = World(sm, cls, sizes=sizes)
         d = w.dim
         swaps = [(0, 1)] if d == 2 else [(0, 1), (0, 2), (1, 2)]
         for (tname, module, disp, cname) in TERMS:
@@ -96,7 +102,9 @@ def job(args):
                     rhs = value_at(w, res, Pt)
                     ok = is_zero(lhs - rhs)
                     ob('A1', f"{module}.{impl}/swap={AX[a]}{AX[b]}", ok,
-                       f"[{cls}] row {F.cstr(P)} transposed differs from row {F.cstr(Pt)} by {fmt_rat(lhs - rhs, 6)}" if not ok else f"[{cls}] row {F.cstr(P)} <-> {F.cstr(Pt)}", fi.loc())
+                       f"[{cls}{' sizes=' + str(sizes) if sizes else ''}] row {F.cstr(P)} transposed differs from row {F.cstr(Pt)} by {fmt_rat(lhs - rhs, 6)}" if not ok else f"[{cls}] row {F.cstr(P)} <-> {F.cstr(Pt)}", fi.loc())
+        if sizes:
+            return dict(obs=obs, units=sorted(units), samples=samples, funcs=sorted(w.interp.funcs_seen))
         # gradient and means: component a at face index <-> component b
         phi = w.cell_variable('phi')
         u = w.face_variable('u')
@@ -335,6 +343,8 @@ def job(args):
 
 def _cells(w, tier):
     d = w.dim
+    if not w.symbolic:
+        return F.cell_classes(w, tier)
     out = [tuple(w.t)]
     for a in range(d):
         out.append(tuple(ONE if k == a else w.t[k] for k in range(d)))
